@@ -70,6 +70,13 @@ def run(tier, seed):
             texts.append("".join(chr(rnd.choice([rnd.randrange(32, 127), rnd.randrange(0xA0, 0x800),
                                                  rnd.randrange(0x800, 0xD800), rnd.randrange(0x10000, 0x110000)]))
                                  for _ in range(rnd.randint(0, n))))
+    # texts longer than any plausible internal buffer (8 KiB, 64 KiB, 1 MiB): around each size, ASCII and multi-byte
+    for L in (8191, 8192, 8193, 16384, 16385, 65535, 65536, 65537, 70001) + ((1048577,) if tier == "thorough" else ()):
+        texts.append("".join(chr(32 + (i * 7 + L) % 95) for i in range(L)))
+        texts.append("".join(chr(rnd.choice([rnd.randrange(32, 127), rnd.randrange(0xA0, 0x800), rnd.randrange(0x800, 0xD800)])) for _ in range(L // 2)))
+    big_enum = {"type": "enum", "name": "ns.Big", "symbols": ["SYMBOL_NUMBER_%d" % i for i in range(1200)]}
+    texts.append(to_parsing_canonical_form(big_enum))
+    texts.append(to_parsing_canonical_form({"type": "record", "name": "ns.Wide", "fields": [{"name": "field_number_%d" % i, "type": ["null", "string"]} for i in range(400)]}))
     for name, c in load_corpus("C14"):
         texts.append(c["text"])
     algs = sorted(FINGERPRINT_ALGORITHMS)
